@@ -2,6 +2,7 @@ package main
 
 import (
 	"fmt"
+	"reflect"
 	"runtime"
 	"sort"
 	"strconv"
@@ -21,8 +22,12 @@ import (
 //         *NickMode / *ChanMode / *ChanPrivs, Key, Limit, map entries deleted / added / flipped),
 //     (3) sweeps every query once more and scribbles over all those results too (not recorded),
 //     (4) sweeps every query again and records the results (kept pristine);
-//   every value ever returned is kept, together with its rendering at the time it was last
-//   touched by the harness; at the end each is rendered again.
+//   every value ever returned is kept, together with its rendering AND a reflective deep
+//   fingerprint (every field, also ones the harness does not know) at the time it was last
+//   touched by the harness; at the end each is rendered and fingerprinted again.  The scribble
+//   also goes through reflection over everything reachable (scalars, slice elements and spare
+//   capacity, map values); the fingerprints of sweep (3), taken before the scribbling, must equal
+//   those of sweep (4).
 //   obs = per operation: return value, sweep (4)   [the format of C12]
 //         then one flag per operation: "t" iff every value obtained during that step still
 //         renders the same after all later operations.
@@ -301,8 +306,178 @@ func c14SweepOps(nicks, chans []string) []c14Op {
 
 type c14Held struct {
 	v    c14Val
-	want string
+	want string // canonical rendering (the fields the model knows)
+	fp   string // reflective deep fingerprint (EVERY field, also ones added later)
 	step int
+}
+
+// field-agnostic deep fingerprint: structs (all fields), pointers, maps (sorted keys), slices
+// (the len elements), strings, bools, integers
+func c14FPValue(sb *strings.Builder, v reflect.Value, depth int) {
+	if depth > 12 {
+		sb.WriteString("<deep>")
+		return
+	}
+	switch v.Kind() {
+	case reflect.Ptr, reflect.Interface:
+		if v.IsNil() {
+			sb.WriteString("nil")
+			return
+		}
+		sb.WriteString("&")
+		c14FPValue(sb, v.Elem(), depth+1)
+	case reflect.Struct:
+		sb.WriteString("{")
+		for i := 0; i < v.NumField(); i++ {
+			sb.WriteString(v.Type().Field(i).Name + ":")
+			c14FPValue(sb, v.Field(i), depth+1)
+			sb.WriteString(";")
+		}
+		sb.WriteString("}")
+	case reflect.Map:
+		if v.IsNil() {
+			sb.WriteString("nilmap")
+			return
+		}
+		keys := v.MapKeys()
+		ks := make([]string, len(keys))
+		idx := map[string]reflect.Value{}
+		for i, k := range keys {
+			var kb strings.Builder
+			c14FPValue(&kb, k, depth+1)
+			ks[i] = kb.String()
+			idx[ks[i]] = k
+		}
+		sort.Strings(ks)
+		sb.WriteString("map[")
+		for _, k := range ks {
+			sb.WriteString(k + "=>")
+			c14FPValue(sb, v.MapIndex(idx[k]), depth+1)
+			sb.WriteString(",")
+		}
+		sb.WriteString("]")
+	case reflect.Slice, reflect.Array:
+		if v.Kind() == reflect.Slice && v.IsNil() {
+			sb.WriteString("nilslice")
+			return
+		}
+		fmt.Fprintf(sb, "[%d:", v.Len())
+		for i := 0; i < v.Len(); i++ {
+			c14FPValue(sb, v.Index(i), depth+1)
+			sb.WriteString(",")
+		}
+		sb.WriteString("]")
+	case reflect.String:
+		fmt.Fprintf(sb, "%q", v.String())
+	case reflect.Bool:
+		fmt.Fprintf(sb, "%t", v.Bool())
+	case reflect.Int, reflect.Int8, reflect.Int16, reflect.Int32, reflect.Int64:
+		fmt.Fprintf(sb, "%d", v.Int())
+	case reflect.Uint, reflect.Uint8, reflect.Uint16, reflect.Uint32, reflect.Uint64, reflect.Uintptr:
+		fmt.Fprintf(sb, "%d", v.Uint())
+	case reflect.Float32, reflect.Float64:
+		fmt.Fprintf(sb, "%g", v.Float())
+	default:
+		fmt.Fprintf(sb, "<%s>", v.Kind())
+	}
+}
+
+func (v c14Val) fingerprint() string {
+	var sb strings.Builder
+	sb.WriteByte(v.kind)
+	switch v.kind {
+	case 'N':
+		c14FPValue(&sb, reflect.ValueOf(v.nick), 0)
+	case 'C':
+		c14FPValue(&sb, reflect.ValueOf(v.ch), 0)
+	case 'I', 'P':
+		c14FPValue(&sb, reflect.ValueOf(v.privs), 0)
+		fmt.Fprintf(&sb, "%t", v.ok)
+	}
+	return sb.String()
+}
+
+// a scribbled replacement for a value that is not settable in place (map values)
+func c14Scribbled(v reflect.Value) reflect.Value {
+	n := reflect.New(v.Type()).Elem()
+	n.Set(v)
+	c14RSValue(n, 0)
+	return n
+}
+
+// field-agnostic scribble: set every settable string / bool / integer reachable from v, every
+// slice element, the spare capacity of every slice, every map value
+func c14RSValue(v reflect.Value, depth int) {
+	if depth > 12 {
+		return
+	}
+	switch v.Kind() {
+	case reflect.Ptr, reflect.Interface:
+		if !v.IsNil() {
+			c14RSValue(v.Elem(), depth+1)
+		}
+	case reflect.Struct:
+		for i := 0; i < v.NumField(); i++ {
+			c14RSValue(v.Field(i), depth+1)
+		}
+	case reflect.Map:
+		if v.IsNil() {
+			return
+		}
+		for _, k := range v.MapKeys() {
+			e := v.MapIndex(k)
+			if e.Kind() == reflect.Ptr || e.Kind() == reflect.Map || e.Kind() == reflect.Slice {
+				c14RSValue(e, depth+1)
+			} else {
+				v.SetMapIndex(k, c14Scribbled(e))
+			}
+		}
+	case reflect.Slice:
+		if v.IsNil() {
+			return
+		}
+		for i := 0; i < v.Len(); i++ {
+			c14RSValue(v.Index(i), depth+1)
+		}
+		if v.Cap() > v.Len() { // what an append by the caller would overwrite
+			ext := v.Slice(0, v.Cap())
+			for i := v.Len(); i < v.Cap(); i++ {
+				c14RSValue(ext.Index(i), depth+1)
+			}
+		}
+	case reflect.Array:
+		for i := 0; i < v.Len(); i++ {
+			c14RSValue(v.Index(i), depth+1)
+		}
+	case reflect.String:
+		if v.CanSet() {
+			v.SetString(v.String() + "~r")
+		}
+	case reflect.Bool:
+		if v.CanSet() {
+			v.SetBool(!v.Bool())
+		}
+	case reflect.Int, reflect.Int8, reflect.Int16, reflect.Int32, reflect.Int64:
+		if v.CanSet() {
+			v.SetInt(v.Int() + 1)
+		}
+	case reflect.Uint, reflect.Uint8, reflect.Uint16, reflect.Uint32, reflect.Uint64:
+		if v.CanSet() {
+			v.SetUint(v.Uint() + 1)
+		}
+	}
+}
+
+func (v c14Val) scribbleAll() {
+	v.scribble() // the fields the harness knows: also deletes / replaces / adds map entries
+	switch v.kind {
+	case 'N':
+		c14RSValue(reflect.ValueOf(v.nick), 0)
+	case 'C':
+		c14RSValue(reflect.ValueOf(v.ch), 0)
+	case 'I', 'P':
+		c14RSValue(reflect.ValueOf(v.privs), 0)
+	}
 }
 
 func c14ExecAlias(in Fields) (obs Fields) {
@@ -338,29 +513,40 @@ func c14ExecAlias(in Fields) (obs Fields) {
 	qs := c14SweepOps(lists[0], lists[1])
 	st := state.Tracker(state.NewTracker(me))
 	var held []c14Held
-	for step, o := range ops {
-		v := c14Call(st, o)
-		obs = append(obs, v.render()...) // (1)
-		v.scribble()                    // (2)
-		held = append(held, c14Held{v, v.render().String(), step})
-		for _, q := range qs { // (3)
-			w := c14Call(st, q)
-			w.scribble()
-			held = append(held, c14Held{w, w.render().String(), step})
-		}
-		for _, q := range qs { // (4)
-			w := c14Call(st, q)
-			r := w.render()
-			obs = append(obs, r...)
-			held = append(held, c14Held{w, r.String(), step})
-		}
-	}
 	good := make([]bool, len(ops))
 	for k := range good {
 		good[k] = true
 	}
+	for step, o := range ops {
+		v := c14Call(st, o)
+		obs = append(obs, v.render()...) // (1)
+		// (3) one sweep: fingerprint every answer first (the tracker as it is BEFORE any scribbling) ...
+		ws := make([]c14Val, len(qs))
+		before := make([]string, len(qs))
+		for k, q := range qs {
+			ws[k] = c14Call(st, q)
+			before[k] = ws[k].fingerprint()
+		}
+		// (2) ... then overwrite everything reachable from the operation's result and from all of them
+		v.scribbleAll()
+		held = append(held, c14Held{v, v.render().String(), v.fingerprint(), step})
+		for _, w := range ws {
+			w.scribbleAll()
+			held = append(held, c14Held{w, w.render().String(), w.fingerprint(), step})
+		}
+		for k, q := range qs { // (4) recorded; must also fingerprint as before the scribbling
+			w := c14Call(st, q)
+			r := w.render()
+			obs = append(obs, r...)
+			fp := w.fingerprint()
+			if fp != before[k] {
+				good[step] = false
+			}
+			held = append(held, c14Held{w, r.String(), fp, step})
+		}
+	}
 	for _, h := range held {
-		if h.v.render().String() != h.want {
+		if h.v.render().String() != h.want || h.v.fingerprint() != h.fp {
 			good[h.step] = false
 		}
 	}
@@ -796,6 +982,9 @@ func c14RandomOp(r *Rand, shadow state.Tracker) c14Op {
 		return c14O("DC", C())
 	case k < 67:
 		return c14O("WI")
+	case k < 70:
+		// list modes, one letter per call: +b m1, +b m2, -b m1 ... (also e, I)
+		return c14O("CM", C(), r.Pick([]string{"+b", "+b", "+b", "-b", "-b", "+e", "-e", "+I"}), r.Pick([]string{"m1!*@*", "m2!*@*", "m3!*@*", "*!*@m4"}))
 	case k < 79:
 		ch := C()
 		ms, args := c14ModeString(r, func(n string) bool {
@@ -826,6 +1015,15 @@ func c14Alias(r *Rand, nops int) Fields {
 	}
 	shadow := state.Tracker(state.NewTracker(me))
 	var ops []c14Op
+	if r.Chance(30) { // a ban list that grows and then loses a NON-last entry
+		c := c14Chans[1+r.Intn(3)]
+		ops = append(ops, c14O("NC", c), c14O("AS", c, me), c14O("CM", c, "+b", "m1!*@*"), c14O("CM", c, "+b", "m2!*@*"),
+			c14O("CM", c, "+b", "m3!*@*"), c14O("GC", c), c14O("CM", c, "-b", "m1!*@*"), c14O("CM", c, "+e", "*!*@m4"),
+			c14O("CM", c, "+I", "m2!*@*"), c14O("CM", c, "-b", "m3!*@*"))
+		for _, o := range ops {
+			c14Call(shadow, o)
+		}
+	}
 	for i := 0; i < nops; i++ {
 		o := c14RandomOp(r, shadow)
 		ops = append(ops, o)
